@@ -216,7 +216,7 @@ func Main(id string) {
 	noDevFlag := flag.Bool("nodev", false, "development aid: skip the message-level searches")
 	quickBudget := 95 * time.Second
 	if id == "C01" {
-		quickBudget = 130 * time.Second // the Late configuration (fourth session) brought its own share
+		quickBudget = 170 * time.Second // the Late configuration (fourth session) brought its own share
 	}
 	r := mc.Start(id, "model_checking", quickBudget, 28*time.Minute)
 	r.Assumptions = []string{
@@ -239,7 +239,7 @@ func Main(id string) {
 	} else if id == "C01" {
 		// Search 2 keeps a share of its own: on a loaded machine Search 1 used to run into the deadline and the
 		// message-level search was never started
-		stop = func() bool { return r.ExpiredFrac(0.72) }
+		stop = func() bool { return r.ExpiredFrac(0.75) }
 	}
 	// quick: reduced round alphabet to depth 4; thorough: full alphabet (see DESIGN) to depth 4,
 	// which the -reduced flag can trade for a deeper reduced-alphabet search
@@ -381,7 +381,7 @@ func Main(id string) {
 				if nc.ReplicaOnly && r.Quick() && PartFraction > 0 && r.ExpiredFrac(PartFraction*0.5) {
 					return true // leave at least half of the part's time to the placement in which the Byzantine node leads
 				}
-				if id == "C01" && r.Quick() && ((nc.Cfg.Late && r.ExpiredFrac(0.25)) || (nc.ReplicaOnly && r.ExpiredFrac(0.45))) {
+				if id == "C01" && r.Quick() && ((nc.Cfg.Late && r.ExpiredFrac(0.32)) || (nc.ReplicaOnly && r.ExpiredFrac(0.5))) {
 					return true // quick shares: Late placement, replica-only placement, then the placement in which the Byzantine node leads
 				}
 				if !r.Quick() && !nc.Negative && r.ExpiredFrac(shareEnd) {
